@@ -40,59 +40,79 @@ def storage_lemma() -> list:
 
 
 def dedup_bounded(sess: Session):
-    """A-DEDUP: execute the real de-duplication code of _find_helper natively on all lists over 3 values, len <= 5.
-    The code is located on the AST: the last top-level `for` loop of _find_helper over the collected results (with
-    the accumulators initialised just before it), or the module-level helper that _find_helper's final `return`
-    hands the results to."""
-    import ast, inspect, textwrap, itertools
-    src = textwrap.dedent(inspect.getsource(core._find_helper))
-    fn = ast.parse(src).body[0]
-    runner = None
-    last = fn.body[-1]
-    if isinstance(last, ast.Return) and isinstance(last.value, ast.Call) and isinstance(last.value.func, ast.Name) \
-            and len(last.value.args) == 1 and hasattr(core, last.value.func.id):
-        helper = getattr(core, last.value.func.id)
-        runner = lambda xs: helper(list(xs))
-        where = f'wn._core.{last.value.func.id}'
-    else:
-        loops = [k for k, n in enumerate(fn.body) if isinstance(n, ast.For)]
-        if loops and isinstance(last, ast.Return) and isinstance(last.value, ast.Name):
-            k = loops[-1]
-            loop = fn.body[k]
-            inits = []
-            for st in fn.body[:k][::-1]:
-                if isinstance(st, (ast.Assign, ast.AnnAssign)) and st.value is not None and (
-                        isinstance(st.value, (ast.List, ast.Set, ast.Dict)) or
-                        (isinstance(st.value, ast.Call) and isinstance(st.value.func, ast.Name) and
-                         st.value.func.id in ('set', 'list', 'dict'))):
-                    inits.insert(0, st)
-                else:
-                    break
-            if isinstance(loop.iter, ast.Name) and inits:
-                mod = ast.Module(body=inits + [loop], type_ignores=[])
-                code = compile(ast.fix_missing_locations(mod), '<_find_helper loop>', 'exec')
-                src_name, out_name = loop.iter.id, last.value.id
+    """A-DEDUP: the real _find_helper executed natively with stub collaborators (a wordnet object holding a lemmatizer
+    that proposes several (pos, forms) groups, a query function returning prepared rows, a result class): for all
+    small configurations the result is the concatenation of the query results in group order without repetitions,
+    first occurrence kept."""
+    import itertools
 
-                def runner(xs, code=code, src_name=src_name, out_name=out_name):
-                    env = {src_name: list(xs)}
-                    exec(code, env)
-                    return env[out_name]
-                where = 'wn._core._find_helper (final loop)'
-    if runner is None:
-        raise Unsupported('C09: the de-duplication code of _find_helper was not recognised')
+    class Ent:
+        def __init__(self, key, _wordnet=None):
+            self.key = key
+
+        def __eq__(self, other):
+            return isinstance(other, Ent) and self.key == other.key
+
+        def __hash__(self):
+            return hash(self.key)
+
+    class W:
+        def __init__(self, groups):
+            self._lexicon_ids = (1,)
+            self._search_all_forms = True
+            self._normalizer = None
+            self.lemmatizer = (lambda form, pos: groups) if groups else None
+
     cases, bad = 0, []
-    for n in range(6):
-        for xs in itertools.product('abc', repeat=n):
+    universe = 'abc'
+    # two lemmatizer groups, each finding 0..3 entities out of {a, b, c} in some order (non-adjacent repeats included)
+    seqs = [p for n in range(4) for p in itertools.permutations(universe, n)]
+    for r1 in seqs:
+        for r2 in seqs:
+            groups = {'n': {'x'}, 'v': {'y'}}
+            rows = {'n': [(k,) for k in r1], 'v': [(k,) for k in r2]}
+
+            def query(pos=None, forms=None, rows=rows, **kw):
+                return list(rows.get(pos, []))
+            try:
+                got = [e.key for e in core._find_helper(W(groups), Ent, query, 'q', None)]
+            except Exception as exc:   # noqa: BLE001
+                raise Unsupported(f'C09: _find_helper could not be run with stub collaborators: '
+                                  f'{type(exc).__name__}: {exc}')
             cases += 1
-            got = runner(xs)
-            want = list(dict.fromkeys(xs))
-            if list(got) != want:
-                bad.append({'results': xs, 'got': got, 'want': want})
-    sess.add_bounded(f'{where} (de-duplication)', 'all lists over 3 values, length <= 5', cases,
-                     'native execution of the located code', not bad)
+            want = list(dict.fromkeys(list(r1) + list(r2)))
+            if got != want:
+                bad.append({'group results': [r1, r2], 'got': got, 'want': want})
+    sess.add_bounded('wn._core._find_helper (union over lemmatizer groups without duplicates)',
+                     'two (pos, forms) groups x all ordered selections of <= 3 entities each', cases,
+                     'native execution of the real function with stub wordnet/query/result class', not bad)
     if bad:
-        sess.violation_direct('wn._core._find_helper:dedup', 'results are not de-duplicated in first-occurrence order',
+        sess.violation_direct('wn._core._find_helper:dedup', 'the union over the proposed (pos, form) pairs contains '
+                              'duplicates or loses the first-occurrence order',
                               {'witness': bad[0]}, True, functions=('wn._core._find_helper',))
+
+
+def normalize_bounded(sess: Session):
+    """The default normalizer (used when forms are stored and when a query is normalised): lower-case, NFKD,
+    combining marks dropped - nothing more (so that only case / diacritic variants are identified)."""
+    import unicodedata
+    from wn._util import normalize_form
+    samples = ['Straße', 'STRASSE', 'Maße', 'Masse', 'ÅNGSTRÖM', 'ǅ', 'ﬁn', 'İstanbul', 'ΣΊΣΥΦΟΣ', 'σίσυφος', 'ς',
+               'résumé', 'RÉSUMÉ', 'naïve', 'São Paulo', 'ａｂｃ', '①', 'I', 'ı', 'ǆ', 'ß', 'ẞ', 'ŉ', 'multi word Form',
+               'x\u0301', '東京', 'Ünïcödé', '']
+    bad = []
+    for s_ in samples:
+        want = ''.join(c for c in unicodedata.normalize('NFKD', s_.lower()) if not unicodedata.combining(c))
+        got = normalize_form(s_)
+        if got != want:
+            bad.append({'form': s_, 'got': got, 'documented': want})
+    sess.add_bounded('wn._util.normalize_form', f'{len(samples)} forms (case, diacritics, special case foldings, '
+                     'compatibility characters, non-Latin)', len(samples), 'comparison with the documented '
+                     'definition', not bad)
+    if bad:
+        sess.violation_direct('wn._util.normalize_form:definition', 'forms that differ by more than case/diacritics are '
+                              'identified (or variants are not)', {'witness': bad[:3]}, True,
+                              functions=('wn._util.normalize_form',))
 
 
 def run(sess: Session):
@@ -120,3 +140,4 @@ def run(sess: Session):
         dedup_bounded(sess)
     except Unsupported as exc:
         sess.unsupported('wn._core._find_helper:dedup', str(exc))
+    normalize_bounded(sess)
